@@ -19,6 +19,10 @@ def answers_agree(request, impl, model):
             return int(impl) <= int(model)
         except ValueError:
             return False
+    if proto == "select":
+        # the thread pool reports in completion order: compare as multisets
+        canon = "-" if model == "-" else ",".join(sorted(model.split(","), key=int))
+        return impl == "sorted:" + canon
     return impl == model
 
 
@@ -341,6 +345,36 @@ PROPS["C17"] = {
     "level_note": "Trusted: Lean kernel; Model/Stdin.lean tied by the `stdin` correspondence; library output obtained through the harness (`hx fmt`) under the configuration the flags denote; file-system snapshot before/after.",
     "technique": "Lean 4 decision logic + byte comparison of stdout with the library output + file-system snapshots",
     "rule": "14 inputs (valid, formatted, invalid, empty, blank lines, spaces only, CRLF blank, tab only, CRLF, no trailing newline, comment only, shebang, non-ASCII, 2 MB (thorough 7 MB)) x {check} x {respect-ignores} x {no / plain / ignored --stdin-filepath} x 5 format-option sets (seeded subsample). ring 2 (`stdin`): kind of stdout (input / formatted / diff / nothing) and exit status vs Model/Stdin.lean. ring 3: stdout equals the library's output byte for byte; nothing on a parse error; pass-through; no file touched.",
+    "trusted_base": [],
+    "assumptions": [],
+}
+
+PROPS["C20"] = {
+    "lean_modules": ["StyluaModel.Props.C20"],
+    "theorem_prefix": "C20_",
+    "required_theorems": ["C20_cli_eq_lib", "C20_lib_has_cli", "C20_overrides_total", "C20_ec_names", "C20_deny_unknown"],
+    "py": [cli.c20],
+    "needs_cli": True,
+    "level": "proof",
+    "level_text": "Proof by computation over tables the translator re-extracts from the source on every run: every command-line option enum has exactly the library's variants (conversion is by name), every Config field has a command-line override, .editorconfig spellings are the lower-cased variant names of library variants, unknown fields are denied. That the three carriers produce byte-identical output equal to the library's output for that Config is checked for every option x every documented value (x case variants) on a probe file sensitive to every option; malformed configuration files must exit 2 and modify nothing.",
+    "level_note": "Trusted: Lean kernel; the translator (regex extraction from lib.rs, cli/opt.rs, cli/config.rs, editorconfig.rs); toml / clap / ec4rs decoding is exercised, not modelled. README documentation is not parsed (documented values are taken from the enum tables).",
+    "technique": "translated option tables + Lean `decide` + carrier equivalence runs against the library output",
+    "rule": "10 options x all values (36) x {stylua.toml, flag in 3 case spellings, .editorconfig key in 2 case spellings where it exists} -> output must equal `format_code` under the corresponding Config (harness linked against /repo); 9 kinds of malformed configuration x 2 file names x {discovered, --config-path}: exit status 2, no file modified. ring 2 is the table theorems themselves (one bookkeeping request).",
+    "trusted_base": [],
+    "assumptions": [],
+}
+
+PROPS["C16"] = {
+    "lean_modules": ["StyluaModel.Props.C16"],
+    "theorem_prefix": "C16_",
+    "required_theorems": ["C16_only_selected", "C16_all_selected", "C16_explicit", "C16_once_per_file", "C16_pinned_twice", "C16_rejected_does_not_shadow"],
+    "py": [cli.c16],
+    "needs_cli": True,
+    "level": "proof",
+    "level_text": "Proof over a model of StyLua's own selection glue (the walker loop of src/cli/main.rs: seen set, default glob only when no --glob and ignores are respected for that path, explicit paths and --respect-ignores) for every sequence of entries a walker can yield: only selected entries are processed, every selected file is processed, each file once, an explicit file regardless. The `ignore` crate's walker (nested .styluaignore, negations, hidden entries, --glob overrides) is a parameter of the model; an independent emulation of it for a restricted pattern language feeds the model in the correspondence check, and the property itself is evaluated on real runs of the built binary over random trees.",
+    "level_note": "Trusted: Lean kernel; the hand-written model (tied by correspondence on random trees x argument lists x options); the crate `ignore` is exercised, not modelled in Lean. The set of processed files is observed in --check --output-format json (one record per processing) and cross-checked against the files whose bytes change in write mode.",
+    "technique": "Lean induction over the yielded-entry list + correspondence of the selection glue against the built binary on random trees",
+    "rule": "random trees over 15 files (hidden, non-Lua, nested, generated) x .styluaignore at 3 levels (7 patterns incl. negation and directory patterns) x 1-3 arguments from 12 (files, directories, overlapping, two spellings) x 7 glob lists x --respect-ignores x --allow-hidden; each tree is run twice (check-json and write mode); oracle: processed multiset = files changed, no hidden / ignored / non-Lua file processed unless explicit, nothing twice, explicit files always.",
     "trusted_base": [],
     "assumptions": [],
 }
